@@ -57,37 +57,43 @@ def body(run):
         run.add_break('correspondence-break', 'KernelModel.fit differs from Kernel.Fit.fit_px with distinct source / reference masks', m)
     # (b) paired real fusions and comparisons differing only in the encoding / hidden values
     dist = {}
-    for k in range(run.scale(10, 150)):
+    # every (dtype, model, varied image, requested grid) combination is visited: an encoding-dependent path may exist on one of them only
+    for k in range(run.scale(36, 360)):
         dtype = ['float32', 'uint8'][k % 2]
         g = synth.random_geom(rng, max_src=run.scale(28, 44))
         model = ik.MODELS[(k // 2) % 3]
         kshape = rng.choice([(3, 3), (1, 3), (5, 3), (3, 5)])
-        proc = rng.choice(['auto', 'auto', 'ref', 'src'])
         which = ['src', 'ref'][(k // 6) % 2]          # whose encoding is varied
+        proc = ['auto', 'src', 'ref'][(k // 12) % 3]
         sm = fz.src_mask(rng, g.src_shape, rng.choice(['holes', 'border', 'islands', 'corner']))
         rm = fz.src_mask(rng, g.ref_shape, rng.choice(['none', 'islands', 'none']))
         src = fz.texture(rng, g.src_shape, 1, lo=20, hi=220)
         ref = fz.texture(rng, g.ref_shape, 1, lo=30, hi=180)
         results = []
         vs = variants(dtype, rng)
+        if not run.thorough:
+            # baseline, the numeric-nodata / first alternative, and one more drawn at random
+            vs = vs[:2] + [rng.choice(vs[2:])] if dtype == 'float32' else [vs[0], rng.choice(vs[1:3]), rng.choice(vs[3:])]
+        unworkable = False
         for name, kw in vs:
             skw = kw if which == 'src' else (dict(encoding='nan') if dtype == 'float32' else dict(encoding='nodata', nodata=0, dtype='uint8'))
             rkw = kw if which == 'ref' else dict(encoding='nan')
             pair = fz.make_pair(run.work, g, rng, src=src, ref=ref, smask=sm, rmask=rm, tag='e', src_kw=skw, ref_kw=rkw)
-            try:
-                mbm = fz.block_mem_for(pair['src_fn'], pair['ref_fn'], proc, 4, 1.2) if name == vs[0][0] else mbm
-                res = fz.fuse(pair['src_fn'], pair['ref_fn'], run.work / 'enc.tif', model=model, kernel_shape=kshape, proc_crs=proc,
-                              max_block_mem=mbm, threads=1, out_profile=dict(dtype='float32', nodata=NAN))
-                cmp_ = fz.compare(pair['src_fn'], pair['ref_fn'], proc_crs=proc, max_block_mem=mbm)
-            except Exception as ex:
-                if type(ex).__name__ == 'BlockSizeError' and name == vs[0][0]:
-                    mbm = 1e6
-                    res = fz.fuse(pair['src_fn'], pair['ref_fn'], run.work / 'enc.tif', model=model, kernel_shape=kshape, proc_crs=proc,
-                                  max_block_mem=mbm, threads=1, out_profile=dict(dtype='float32', nodata=NAN))
-                    cmp_ = fz.compare(pair['src_fn'], pair['ref_fn'], proc_crs=proc, max_block_mem=mbm)
-                else:
-                    raise
+            if name == vs[0][0]:
+                try:
+                    mbm, _n = fz.pick_block_mem(pair['src_fn'], pair['ref_fn'], proc, 4, kshape, 1.2)
+                except Exception as ex:
+                    if type(ex).__name__ not in ('BlockSizeError', 'ImageContentError'):
+                        raise
+                    unworkable = True        # the processing window is smaller than the kernel's overlap: homonim refuses the geometry
+                    break
+            res = fz.fuse(pair['src_fn'], pair['ref_fn'], run.work / 'enc.tif', model=model, kernel_shape=kshape, proc_crs=proc,
+                          max_block_mem=mbm, threads=1, out_profile=dict(dtype='float32', nodata=NAN))
+            cmp_ = fz.compare(pair['src_fn'], pair['ref_fn'], proc_crs=proc, max_block_mem=mbm)
             results.append((name, res, cmp_))
+        if unworkable:
+            dist['skipped:unworkable-geometry'] = dist.get('skipped:unworkable-geometry', 0) + 1
+            continue
         base = results[0]
         for name, res, cmp_ in results[1:]:
             key = f'{dtype}/{which}/{name}/{model}'
